@@ -12,9 +12,18 @@ namespace Verif.Lemmas.C18
 open Verif.GoSem Verif.Dec
 open Verif.Spec.Currency (amount maxInt64)
 
-@[simp] theorem Res.elim_ok {ε α β : Type} (a : α) (f : α → β) (g : ε → β) (p : β) : Res.elim (.ok a : Res ε α) f g p = f a := rfl
-@[simp] theorem Res.elim_err {ε α β : Type} (e : ε) (f : α → β) (g : ε → β) (p : β) : Res.elim (.err e : Res ε α) f g p = g e := rfl
-@[simp] theorem Res.elim_panic {ε α β : Type} (f : α → β) (g : ε → β) (p : β) : Res.elim (.panic : Res ε α) f g p = p := rfl
+@[simp] theorem Res.elim_ok {ε α β : Type} (a : α) (f : α → β) (g : ε → β) (p : β) : Res.elim (.ok a : Res ε α) f g p = f a := by
+  simp only [Res.elim]
+@[simp] theorem Res.elim_err {ε α β : Type} (e : ε) (f : α → β) (g : ε → β) (p : β) : Res.elim (.err e : Res ε α) f g p = g e := by
+  simp only [Res.elim]
+@[simp] theorem Res.elim_panic {ε α β : Type} (f : α → β) (g : ε → β) (p : β) : Res.elim (.panic : Res ε α) f g p = p := by
+  simp only [Res.elim]
+
+/-- a call result that is itself a conditional: push the continuation into both branches (so that no `if` stays
+    under a binder, where `split` cannot reach it) -/
+theorem Res.elim_ite {ε α β : Type} (c : Prop) [Decidable c] (x y : Res ε α) (f : α → β) (g : ε → β) (p : β) :
+    Res.elim (if c then x else y) f g p = if c then Res.elim x f g p else Res.elim y f g p := by
+  split <;> rfl
 
 theorem slt_iff (a b : BitVec 64) : (BitVec.slt a b = true) ↔ a.toInt < b.toInt := by simp [BitVec.slt]
 theorem sle_iff (a b : BitVec 64) : (BitVec.sle a b = true) ↔ a.toInt ≤ b.toInt := by simp [BitVec.sle]
